@@ -438,13 +438,20 @@ impl<'a> FieldParser<'a> {
                 // octet size is known by size field. Parse elements
                 // item by item as a vector.
                 self.check_size(&span, &quote!(#size_field));
-                let parse_element =
-                    self.parse_array_element(&format_ident!("head"), width, type_id, decl);
+                // When the array is padded `span` already is the local `head`:
+                // use another name for the sized part, otherwise the data is
+                // shadowed by the assignment of the tail.
+                let head = if padding_size.is_some() {
+                    format_ident!("elements")
+                } else {
+                    format_ident!("head")
+                };
+                let parse_element = self.parse_array_element(&head, width, type_id, decl);
                 self.tokens.extend(quote! {
-                    let (mut head, tail) = #span.split_at(#size_field);
+                    let (mut #head, tail) = #span.split_at(#size_field);
                     #span = tail;
                     let mut #id = Vec::new();
-                    while !head.is_empty() {
+                    while !#head.is_empty() {
                         #id.push(#parse_element?);
                     }
                 });
